@@ -433,6 +433,108 @@ theorem typeOf_known (e : Extension β) (hk : e.known = true) : e.typeOf = e.wir
 theorem typeOf_grease (t : Nat) (data : List β) : (Extension.grease t data).typeOf = 0xfafa := rfl
 theorem typeOf_unknown (t : Nat) (data : List β) : (Extension.unknown t data).typeOf = t := rfl
 
+/-- every successful result of `p` is a variant whose derived type tag is `t` -/
+def OutType (p : Parser β (Extension β)) (t : Nat) : Prop := ∀ i rem e, p i = .ok rem e → e.typeOf = t
+
+theorem OutType.pure (e : Extension β) (t : Nat) (h : e.typeOf = t) : OutType (fun i => Res.ok i e) t := by
+  intro i rem e' he; simp at he; rw [← he.2]; exact h
+theorem OutType.error (k : ErrKind) (t : Nat) : OutType (fun _ : List β => (Res.error k : Res β (Extension β))) t := by
+  intro i rem e he; simp at he
+theorem OutType.mapP {α : Type} (f : Parser β α) (g : α → Extension β) (t : Nat) (h : ∀ x, (g x).typeOf = t) : OutType (mapP f g) t := by
+  intro i rem e he; unfold Tls.mapP at he
+  cases hf : f i <;> rw [hf] at he <;> simp at he
+  rw [← he.2]; exact h _
+theorem OutType.bind {α : Type} {p : Parser β α} {q : α → Parser β (Extension β)} {t : Nat} (hq : ∀ x, OutType (q x) t) :
+    OutType (fun i => (p i).bind fun i1 x => q x i1) t := by
+  intro i rem e he; simp only at he
+  cases hp : p i <;> rw [hp] at he <;> simp at he
+  exact hq _ _ _ _ he
+theorem OutType.mapParser {f : Parser β (List β)} {g : Parser β (Extension β)} {t : Nat} (hg : OutType g t) : OutType (mapParser f g) t := by
+  intro i rem e he; unfold Tls.mapParser at he
+  cases hf : f i <;> rw [hf] at he <;> simp at he
+  rename_i r1 o1
+  cases hgo : g o1 <;> rw [hgo] at he <;> simp at he
+  rw [← he.2]; exact hg _ _ _ hgo
+theorem OutType.iteI {c : List β → Prop} [DecidablePred c] {p q : Parser β (Extension β)} {t : Nat} (hp : OutType p t) (hq : OutType q t) :
+    OutType (fun i => if c i then p i else q i) t := by
+  intro i rem e he; simp only at he
+  split at he
+  · exact hp _ _ _ he
+  · exact hq _ _ _ he
+
+syntax "outtype_step" : tactic
+macro_rules | `(tactic| outtype_step) => `(tactic| first
+  | exact OutType.pure _ _ rfl | exact OutType.error _ _
+  | exact OutType.mapP _ _ _ (fun _ => rfl)
+  | refine OutType.mapParser ?_
+  | refine OutType.iteI ?_ ?_
+  | refine OutType.bind (fun _ => ?_))
+macro "outtype" : tactic => `(tactic| repeat outtype_step)
+
+/-- every row of the dispatch table produces only the variant of its own IANA type -/
+theorem extTable_outType (n : Nat) : ∀ e ∈ (extTable n : List (Nat × Arms × Parser β (Extension β))), OutType e.2.2 e.1 := by
+  simp only [extTable, List.forall_mem_cons, List.not_mem_nil, false_imp_iff, implies_true, and_true]
+  refine ⟨?_, ?_, ?_, ?_, ?_, ?_, ?_, ?_, ?_, ?_, ?_, ?_, ?_, ?_, ?_, ?_, ?_, ?_, ?_, ?_, ?_, ?_, ?_, ?_, ?_, ?_⟩
+  · unfold parseSniContent; outtype
+  · unfold parseMaxFragmentLengthContent; outtype
+  · unfold parseStatusRequestContent; outtype
+  · unfold parseEllipticCurvesContent; outtype
+  · unfold parseEcPointFormatsContent; outtype
+  · unfold parseSignatureAlgorithmsContent; outtype
+  · unfold parseHeartbeatContent; outtype
+  · unfold parseAlpnContent; outtype
+  · unfold parseSctContent; outtype
+  · outtype
+  · unfold parseEmptyContent; outtype
+  · unfold parseEmptyContent; outtype
+  · outtype
+  · outtype
+  · outtype
+  · outtype
+  · unfold parseEarlyDataContent; outtype
+  · unfold parseSupportedVersionsContent; outtype
+  · outtype
+  · unfold parsePskModesContent; outtype
+  · unfold parseOidFilters; outtype
+  · unfold parseEmptyContent; outtype
+  · outtype
+  · unfold parseEmptyContent; outtype
+  · unfold parseRenegotiationInfoContent; outtype
+  · unfold parseEncryptedServerName; outtype
+
+/-- **the type tag derived from any decoded variant equals the wire type** (every GREASE value ↦ the single Grease tag
+    0xfafa) — for every input the dispatchers accept, well-formed or not -/
+theorem typeOf_eq_wire_type (d : Dispatcher) (i r : List β) (e : Extension β) (h : parseExtensionD d i = .ok r e) :
+    ∃ t, beU 2 i = .ok (i.drop 2) t ∧ e.typeOf = if isGrease t then 0xfafa else t := by
+  unfold parseExtensionD at h
+  rcases beU_cases 2 i with ⟨h2, e2⟩ | ⟨_, e2⟩
+  · refine ⟨_, e2, ?_⟩
+    rw [e2] at h; simp only [Res.bind_ok] at h
+    cases hl : lengthData (beU 2) (i.drop 2) with
+    | ok r1 data =>
+      rw [hl] at h; simp only [Res.bind_ok] at h
+      split at h
+      · rename_i hg; simp at h; rw [← h.2, hg]; rfl
+      · rename_i hg
+        simp only [hg, Bool.false_eq_true, if_false]
+        split at h
+        · rename_i p hp
+          cases hpd : p data <;> rw [hpd] at h <;> simp at h
+          unfold extContentParser at hp
+          cases hf : (extTable (data.length % 65536) : List (Nat × Arms × Parser β (Extension β))).find?
+              (fun x => x.1 == beVal (i.take 2) && x.2.1.has d) with
+          | none => rw [hf] at hp; simp at hp
+          | some row =>
+            rw [hf] at hp; simp at hp
+            have hmem := List.mem_of_find?_eq_some hf
+            have hprop := List.find?_some hf
+            simp at hprop
+            have := extTable_outType (β := β) (data.length % 65536) row hmem data _ _ (hp ▸ hpd)
+            rw [← h.2, this, hprop.1]
+        · simp at h; rw [← h.2]; rfl
+    | _ => rw [hl] at h; simp at h
+  · rw [e2] at h; simp at h
+
 /-! ### the three dispatchers agree on every type they all recognise (and on every type none does) -/
 
 theorem find?_congr_mem {α : Type} (l : List α) (p q : α → Bool) (h : ∀ x ∈ l, p x = q x) : l.find? p = l.find? q := by
@@ -458,6 +560,132 @@ theorem dispatchers_agree_parse (t : Nat) (ht : t < 65536) (data r : List β) (h
     (d d' : Dispatcher) :
     parseExtensionD d ((encBE 2 t : List β) ++ (encLD 2 data ++ r)) = parseExtensionD d' ((encBE 2 t : List β) ++ (encLD 2 data ++ r)) := by
   rw [parseExtensionD_frame d t ht data hl, parseExtensionD_frame d' t ht data hl, dispatchers_agree t _ h d d']
+
+/-! ### the single-purpose (tag-specific) parsers accept exactly their own IANA type, then agree with the generic parser -/
+
+theorem tag2_enc (hi lo t : Nat) (hhi : hi < 256) (hlo : lo < 256) (ht : t < 65536) (rest : List β) :
+    tag [hi, lo] ((encBE 2 t : List β) ++ rest) = if t = hi * 256 + lo then .ok rest () else .error .Tag := by
+  have e : (encBE 2 t : List β) = [ByteLike.ofNat (t / 256), ByteLike.ofNat t] := by simp [encBE]
+  rw [e]
+  simp only [tag, List.cons_append, List.nil_append, List.map_cons, List.zip_cons_cons, List.any_cons, ByteLike.toNat_ofNat]
+  by_cases h : t = hi * 256 + lo
+  · subst h
+    have h1 : (hi * 256 + lo) / 256 % 256 = hi := by omega
+    have h2 : (hi * 256 + lo) % 256 = lo := by omega
+    simp [h1, h2]
+  · simp only [h, if_false]
+    by_cases h1 : t / 256 % 256 = hi
+    · have h2 : t % 256 ≠ lo := by omega
+      simp [h1, h2]
+    · simp [h1]
+
+/-- **wrong type ⇒ rejected** (with `Tag`), for every tag-specific parser of either form -/
+theorem tagLD_wrong_type (hi lo t : Nat) (hhi : hi < 256) (hlo : lo < 256) (ht : t < 65536) (hne : t ≠ hi * 256 + lo)
+    (c : Parser β (Extension β)) (rest : List β) :
+    tagLD [hi, lo] c ((encBE 2 t : List β) ++ rest) = .error .Tag := by
+  simp [tagLD, tag2_enc hi lo t hhi hlo ht, hne, Res.bind]
+
+theorem tagLen_wrong_type (hi lo t : Nat) (hhi : hi < 256) (hlo : lo < 256) (ht : t < 65536) (hne : t ≠ hi * 256 + lo)
+    (c : Nat → Parser β (Extension β)) (rest : List β) :
+    tagLen [hi, lo] c ((encBE 2 t : List β) ++ rest) = .error .Tag := by
+  simp [tagLen, tag2_enc hi lo t hhi hlo ht, hne, Res.bind]
+
+theorem tagLD_own (hi lo : Nat) (hhi : hi < 256) (hlo : lo < 256) (c : Parser β (Extension β)) (content rest : List β)
+    (hl : content.length < 65536) :
+    tagLD [hi, lo] c ((encBE 2 (hi * 256 + lo) : List β) ++ (encLD 2 content ++ rest)) = (c content).bind fun _ e => .ok rest e := by
+  have ht : hi * 256 + lo < 65536 := by omega
+  unfold tagLD
+  rw [tag2_enc hi lo (hi * 256 + lo) hhi hlo ht]
+  simp only [if_true, Res.bind_ok, mapParser_ld2_enc c content hl]
+
+theorem tagLen_own (hi lo : Nat) (hhi : hi < 256) (hlo : lo < 256) (c : Nat → Parser β (Extension β)) (content rest : List β)
+    (hl : content.length < 65536) :
+    tagLen [hi, lo] c ((encBE 2 (hi * 256 + lo) : List β) ++ (encLD 2 content ++ rest))
+      = (c content.length content).bind fun _ e => .ok rest e := by
+  have ht : hi * 256 + lo < 65536 := by omega
+  unfold tagLen
+  rw [tag2_enc hi lo (hi * 256 + lo) hhi hlo ht]
+  simp only [if_true, Res.bind_ok, encLD, List.append_assoc]
+  rw [beU2_enc _ hl]; simp only [Res.bind_ok]
+  rw [mapParser_take_enc]
+
+/-- the tag-specific parser of a variant (16 of the 28 variants have one) -/
+def tagParserOf : Extension β → Option (Parser β (Extension β))
+  | .sni _ => some parseTagSni
+  | .maxFragmentLength _ => some parseTagMaxFragmentLength
+  | .statusRequest _ => some parseTagStatusRequest
+  | .ellipticCurves _ => some parseTagEllipticCurves
+  | .ecPointFormats _ => some parseTagEcPointFormats
+  | .signatureAlgorithms _ => some parseTagSignatureAlgorithms
+  | .encryptThenMac => some parseTagEncryptThenMac
+  | .extendedMasterSecret => some parseTagExtendedMasterSecret
+  | .sessionTicket _ => some parseTagSessionTicket
+  | .keyShare _ => some parseTagKeyShare
+  | .preSharedKey _ => some parseTagPreSharedKey
+  | .earlyData _ => some parseTagEarlyData
+  | .supportedVersions _ => some parseTagSupportedVersions
+  | .cookie _ => some parseTagCookie
+  | .pskExchangeModes _ => some parseTagPskModes
+  | _ => none
+
+/-- **own type on a well-formed encoding ⇒ the same value as the generic parser** -/
+theorem tag_parser_agrees_with_generic (e : Extension β) (hw : WFExtension e) (p : Parser β (Extension β))
+    (hp : tagParserOf e = some p) (r : List β) :
+    p (encExtension e ++ r) = .ok r e ∧ parseExtension (encExtension e ++ r) = .ok r e := by
+  have hk : e.known = true := by cases e <;> simp [tagParserOf] at hp <;> rfl
+  obtain ⟨rem, hc⟩ := content_roundtrip e hk hw
+  refine ⟨?_, extension_roundtrip_known e hk hw .generic (by cases e <;> simp [tagParserOf] at hp <;> rfl) r⟩
+  have hl := hw.2
+  unfold encExtension
+  rw [List.append_assoc]
+  cases e <;> simp [tagParserOf] at hp <;> subst hp
+  all_goals first
+    | (simp only [parseTagSni, parseTagMaxFragmentLength, parseTagEllipticCurves, parseTagEcPointFormats,
+        parseTagSignatureAlgorithms, Extension.wireType, Extension.typeOf]
+       first
+        | (rw [show (0 : Nat) = 0 * 256 + 0 from rfl, tagLD_own 0 0 (by decide) (by decide) _ _ _ hl])
+        | (rw [show (1 : Nat) = 0 * 256 + 1 from rfl, tagLD_own 0 1 (by decide) (by decide) _ _ _ hl])
+        | (rw [show (10 : Nat) = 0 * 256 + 10 from rfl, tagLD_own 0 10 (by decide) (by decide) _ _ _ hl])
+        | (rw [show (11 : Nat) = 0 * 256 + 11 from rfl, tagLD_own 0 11 (by decide) (by decide) _ _ _ hl])
+        | (rw [show (13 : Nat) = 0 * 256 + 13 from rfl, tagLD_own 0 13 (by decide) (by decide) _ _ _ hl])
+       simp only [contentParserOf] at hc
+       rw [hc]; rfl)
+    | (simp only [parseTagStatusRequest, parseTagEncryptThenMac, parseTagExtendedMasterSecret, parseTagSessionTicket,
+        parseTagKeyShare, parseTagPreSharedKey, parseTagEarlyData, parseTagSupportedVersions, parseTagCookie, parseTagPskModes,
+        Extension.wireType, Extension.typeOf]
+       first
+        | (rw [show (5 : Nat) = 0 * 256 + 5 from rfl, tagLen_own 0 5 (by decide) (by decide) _ _ _ hl])
+        | (rw [show (22 : Nat) = 0 * 256 + 22 from rfl, tagLen_own 0 22 (by decide) (by decide) _ _ _ hl])
+        | (rw [show (23 : Nat) = 0 * 256 + 23 from rfl, tagLen_own 0 23 (by decide) (by decide) _ _ _ hl])
+        | (rw [show (35 : Nat) = 0 * 256 + 35 from rfl, tagLen_own 0 35 (by decide) (by decide) _ _ _ hl])
+        | (rw [show (51 : Nat) = 0 * 256 + 51 from rfl, tagLen_own 0 51 (by decide) (by decide) _ _ _ hl])
+        | (rw [show (41 : Nat) = 0 * 256 + 41 from rfl, tagLen_own 0 41 (by decide) (by decide) _ _ _ hl])
+        | (rw [show (42 : Nat) = 0 * 256 + 42 from rfl, tagLen_own 0 42 (by decide) (by decide) _ _ _ hl])
+        | (rw [show (43 : Nat) = 0 * 256 + 43 from rfl, tagLen_own 0 43 (by decide) (by decide) _ _ _ hl])
+        | (rw [show (44 : Nat) = 0 * 256 + 44 from rfl, tagLen_own 0 44 (by decide) (by decide) _ _ _ hl])
+        | (rw [show (45 : Nat) = 0 * 256 + 45 from rfl, tagLen_own 0 45 (by decide) (by decide) _ _ _ hl])
+       simp only [contentParserOf] at hc
+       rw [hc]; rfl)
+
+/-- the heartbeat single-purpose parser (which additionally insists on a one-byte content) -/
+theorem tag_heartbeat_own (n : Nat) (hn : n < 256) (r : List β) :
+    parseTagHeartbeat (encExtension (.heartbeat n) ++ r) = .ok r (.heartbeat n) := by
+  unfold parseTagHeartbeat encExtension
+  simp only [Extension.wireType, Extension.typeOf, extContent, encLD, List.append_assoc]
+  rw [show (15 : Nat) = 0 * 256 + 15 from rfl, tag2_enc 0 15 (0 * 256 + 15) (by decide) (by decide) (by decide)]
+  simp only [if_true, Res.bind_ok, encBE_length, verify]
+  rw [beU2_enc _ (by decide)]
+  simp only [Res.bind_ok, decide_true, if_true]
+  have := mapParser_take_enc parseHeartbeatContent (encBE 1 n : List β) r
+  simp only [encBE_length] at this
+  rw [this]
+  simp [parseHeartbeatContent, mapP, beU1_all n hn, Res.map, Res.bind]
+
+theorem tag_heartbeat_wrong_type (t : Nat) (ht : t < 65536) (hne : t ≠ 15) (rest : List β) :
+    parseTagHeartbeat ((encBE 2 t : List β) ++ rest) = .error .Tag := by
+  unfold parseTagHeartbeat
+  rw [tag2_enc 0 15 t (by decide) (by decide) ht]
+  simp [hne, Res.bind]
 
 /-! ### non-vacuity -/
 example : WFExtension (β := Fin 256) (.sni [(0, [97, 98])]) := by
